@@ -5,7 +5,8 @@
  "properties": {"C16": "contract", "C19": "safety"},
  "mode": "harness",
  "link_repo": ["map.c"],
- "unwind": 34,
+ "unwind": 5, "unwindset": ["mapinit.0:33"],
+ "cflags": ["-DVERIF_OWN_XMALLOC"],
  "cbmc_flags": ["--memory-leak-check"],
  "kind": "bounded",
  "bound": "file scope + two nested block scopes; three names 'a', 'ah', 'ba' that share the home slot of the 32-slot table ('a' is a prefix of 'ah', 'ba' differs from 'ah' in bytes only); any subset of the 9 (scope, name) pairs bound as ordinary identifier and any subset as tag, entered in either name order; optionally one name re-bound in the innermost scope; one lookup before and one after each scope exit",
@@ -34,6 +35,22 @@
 
 const struct target *targ;
 struct block { int dummy; };
+
+#ifndef VERIF_REPLAY
+/* allocation stand-ins: do not fail; the tables are 32 slots and never grow here (<= 3 names per table), which is asserted,
+   so that symbolic execution does not follow mapput's growth path */
+void *xmalloc(size_t n) { void *p = malloc(n); __CPROVER_assume(p != 0); return p; }
+void *
+xreallocarray(void *buf, size_t n, size_t m)
+{
+	void *p;
+	__CPROVER_assert(buf == 0 && n == 32, "scope tables are created with 32 slots and do not grow with <= 3 names");
+	__CPROVER_assume(n == 32);
+	p = malloc(32 * m);
+	__CPROVER_assume(p != 0);
+	return p;
+}
+#endif
 
 static char nm[3][3] = { "a", "ah", "ba" };
 static struct decl dd[3][3], dd_re;           /* ordinary declarations [scope][name], and the re-declaration */
@@ -74,7 +91,7 @@ void
 harness(void)
 {
 	struct scope *sc[3], *r;
-	unsigned i, k, n;
+	unsigned i, n;
 	IN(unsigned, in_binddecl); IN(unsigned, in_bindtag);
 	IN(unsigned, in_from); IN(unsigned, in_name); IN(bool, in_recurse);
 	IN(bool, in_rev);                      /* enter the names of a scope in reverse order (other probe layout) */
@@ -93,37 +110,50 @@ harness(void)
 	__CPROVER_assert(sc[1] != sc[0] && sc[2] != sc[1] && sc[2] != sc[0] && sc[1]->parent == sc[0] && sc[2]->parent == sc[1], "mkscope: a fresh scope nested in its parent");
 	__CPROVER_assert(sc[2]->breaklabel == &b0 && sc[2]->continuelabel == &b1 && sc[2]->switchcases == &sw, "mkscope: jump targets of the enclosing statement are inherited");
 	__CPROVER_assert(scopegetdecl(sc[2], nm[0], false) == 0 && scopegettag(sc[2], nm[0], false) == 0, "a fresh scope declares nothing");
-	for (i = 0; i < 3; i++)
-		for (k = 0; k < 3; k++) {
-			n = in_rev ? 2 - k : k;
-			dd[i][n].name = nm[n];
-			if (BIT(g_bd, i, n))
-				scopeputdecl(sc[i], &dd[i][n]);
-			if (BIT(g_bt, i, n))
-				scopeputtag(sc[i], nm[n], &tt[i][n]);
+	/* every name reaches scope.c/map.c as a CONSTANT pointer (case split by constant-index loops): a symbolic spelling would
+	   make the real FNV-1a multiplications symbolic */
+#define PUTS(i, n) do { dd[i][n].name = nm[n]; \
+		if (BIT(g_bd, i, n)) scopeputdecl(sc[i], &dd[i][n]); \
+		if (BIT(g_bt, i, n)) scopeputtag(sc[i], nm[n], &tt[i][n]); } while (0)
+	for (i = 0; i < 3; i++) {
+		if (in_rev) { PUTS(i, 2); PUTS(i, 1); PUTS(i, 0); }
+		else { PUTS(i, 0); PUTS(i, 1); PUTS(i, 2); }
+	}
+	for (n = 0; n < 3; n++)
+		if (n == in_name) {
+			dd_re.name = nm[n];
+			if (in_redecl)
+				scopeputdecl(sc[2], &dd_re);
+			if (in_retag)
+				scopeputtag(sc[2], nm[n], &tt_re);
 		}
-	dd_re.name = nm[in_name];
-	if (in_redecl)
-		scopeputdecl(sc[2], &dd_re);
-	if (in_retag)
-		scopeputtag(sc[2], nm[in_name], &tt_re);
 
 	/* all three scopes open */
-	__CPROVER_assert(scopegetdecl(sc[in_from], nm[in_name], in_recurse) == want_decl(in_from, in_name, in_recurse, in_redecl),
-	                 "6.2.1p4 ordinary identifier: the innermost enclosing declaration of exactly that spelling (only the given scope without recurse); never a tag; a re-declaration in the same scope replaces the binding");
-	__CPROVER_assert(scopegettag(sc[in_from], nm[in_name], in_recurse) == want_tag(in_from, in_name, in_recurse, in_retag),
-	                 "6.2.3 tag: the innermost enclosing tag of that spelling, independent of ordinary identifiers of the same spelling");
+	for (i = 0; i < 3; i++)
+		for (n = 0; n < 3; n++)
+			if (i == in_from && n == in_name) {
+				__CPROVER_assert(scopegetdecl(sc[i], nm[n], in_recurse) == want_decl(i, n, in_recurse, in_redecl),
+				                 "6.2.1p4 ordinary identifier: the innermost enclosing declaration of exactly that spelling (only the given scope without recurse); never a tag; a re-declaration in the same scope replaces the binding");
+				__CPROVER_assert(scopegettag(sc[i], nm[n], in_recurse) == want_tag(i, n, in_recurse, in_retag),
+				                 "6.2.3 tag: the innermost enclosing tag of that spelling, independent of ordinary identifiers of the same spelling");
+			}
 
 	/* the innermost scope ends */
 	r = delscope(sc[2]);
 	__CPROVER_assert(r == sc[1], "delscope returns the enclosing scope");
-	__CPROVER_assert(scopegetdecl(r, nm[in_name2], in_recurse2) == want_decl(1, in_name2, in_recurse2, false),
-	                 "6.2.1p4: when the inner scope has ended the outer declaration it hid is visible again; bindings of enclosing scopes are untouched");
-	__CPROVER_assert(scopegettag(r, nm[in_name2], in_recurse2) == want_tag(1, in_name2, in_recurse2, false), "the same for tags");
+	for (n = 0; n < 3; n++)
+		if (n == in_name2) {
+			__CPROVER_assert(scopegetdecl(r, nm[n], in_recurse2) == want_decl(1, n, in_recurse2, false),
+			                 "6.2.1p4: when the inner scope has ended the outer declaration it hid is visible again; bindings of enclosing scopes are untouched");
+			__CPROVER_assert(scopegettag(r, nm[n], in_recurse2) == want_tag(1, n, in_recurse2, false), "the same for tags");
+		}
 	r = delscope(sc[1]);
 	__CPROVER_assert(r == &filescope && filescope.parent == 0, "the outermost block scope returns to the file scope");
-	__CPROVER_assert(scopegetdecl(r, nm[in_name2], true) == want_decl(0, in_name2, true, false), "file-scope declarations survive every block scope");
-	__CPROVER_assert(scopegettag(r, nm[in_name2], true) == want_tag(0, in_name2, true, false), "file-scope tags survive every block scope");
+	for (n = 0; n < 3; n++)
+		if (n == in_name2) {
+			__CPROVER_assert(scopegetdecl(r, nm[n], true) == want_decl(0, n, true, false), "file-scope declarations survive every block scope");
+			__CPROVER_assert(scopegettag(r, nm[n], true) == want_tag(0, n, true, false), "file-scope tags survive every block scope");
+		}
 	/* the file scope lives to the end of the translation unit; release its tables here so that the leak check speaks
 	   about what mkscope/scopeput* allocated and delscope must have released */
 	if (filescope.decls.len) mapfree(&filescope.decls, 0);
